@@ -36,6 +36,9 @@ Proof.
     destruct (scan_uint 255 true s) as [[v s1]| | |]; cbn [bind good fst snd] in *; auto.
   - pose proof (convert_token_salt_good s HP) as G.
     destruct (convert_token_salt s) as [[v s1]| | |]; cbn [bind good fst snd] in *; auto.
+  - pose proof (convert_token_hash_good s HP) as G.
+    destruct (convert_token_hash s) as [[v s1]| | |]; cbn [bind good fst snd] in *; auto.
+  - apply scan_bitmap_good; [exact HP|lia].
 Qed.
 
 Lemma scan_fields_good origin : forall fs s acc, PInv s ->
